@@ -4,18 +4,10 @@ From Coq Require Import List NArith Bool.
 Import ListNotations.
 From Verif.C11 Require Import Model Proofs Proofs2.
 
-(* (1) goja's post-trap checks (proxy.go after fix beda41a) = ECMA-262 10.5 post-conditions: all 13 traps, every trap result, every well-formed target of any size.  The only guard left is the open finding F6c (a getOwnPropertyDescriptor result that is an accessor without getter and setter function) *)
+(* (1) goja's post-trap checks (proxy.go after fixes beda41a, 178fa38) = ECMA-262 10.5 post-conditions: all 13 traps, every trap result, every well-formed target of any size.  No guard. *)
 Theorem checks_eq_spec :
-  forall c t, wf t = true -> call_in_f6c c = false ->
-  goja_check c t = spec_check c t.
+  forall c t, wf t = true -> goja_check c t = spec_check c t.
 Proof. exact Proofs2.checks_eq_spec. Qed.
-
-(* ... unconditionally for the 12 traps other than getOwnPropertyDescriptor *)
-Theorem checks_eq_spec_other_traps :
-  forall c t, wf t = true ->
-  match c with CGopd _ _ => False | _ => True end ->
-  goja_check c t = spec_check c t.
-Proof. exact Proofs2.checks_eq_spec_other_traps. Qed.
 
 (* __isCompatibleDescriptor = IsCompatiblePropertyDescriptor (ValidateAndApplyPropertyDescriptor with O undefined) for every descriptor and every existing property *)
 Theorem compat_eq :
@@ -28,12 +20,10 @@ Theorem ownkeys_eq :
   forall r t, wf t = true -> goja_ownkeys r t = spec_ownkeys r t.
 Proof. exact Proofs.ownkeys_eq. Qed.
 
-(* getOwnPropertyDescriptor outside F6c (explicit guard) *)
-Theorem gopd_eq_partial :
-  forall r cur ext,
-  match r with GDesc d => undef_accessor d = false | GUndef | GNonObj => True end ->
-  goja_gopd r cur ext = spec_gopd r cur ext.
-Proof. exact Proofs.gopd_eq_partial. Qed.
+(* getOwnPropertyDescriptor: unguarded *)
+Theorem gopd_eq :
+  forall r cur ext, goja_gopd r cur ext = spec_gopd r cur ext.
+Proof. exact Proofs.gopd_eq. Qed.
 
 (* defineProperty: unguarded *)
 Theorem define_eq :
@@ -41,7 +31,7 @@ Theorem define_eq :
   desc_invalid d = false -> goja_define d r cur ext = spec_define d r cur ext.
 Proof. exact Proofs.define_eq. Qed.
 
-(* the former witnesses of F6/F6b now agree with the spec (regression) *)
+(* the former witnesses of F6/F6b/F6c now agree with the spec (regressions) *)
 Theorem f6_repaired :
   goja_check (CGopd 1%N (GDesc (of_prop (PAcc (Some 1%N) None false false)))) acc_target
     = RDesc (Some (PAcc (Some 1%N) None false false)) /\
@@ -49,14 +39,10 @@ Theorem f6_repaired :
   goja_check (CDefine 1%N (mkD None None None None (Some (Some 1%N)) None) true) data_target = RTypeError.
 Proof. exact Proofs2.f6_repaired. Qed.
 
-(* F6c (open): {get: undefined, set: undefined} is reported as a data property *)
-Theorem gopd_result_refuted :
-  wf undef_acc_target = true /\
+Theorem f6c_repaired :
   goja_check (CGopd 1%N (GDesc (of_prop (PAcc None None true true)))) undef_acc_target
-    = RDesc (Some (PData vundef false true true)) /\
-  spec_check (CGopd 1%N (GDesc (of_prop (PAcc None None true true)))) undef_acc_target
     = RDesc (Some (PAcc None None true true)).
-Proof. exact Proofs2.gopd_result_refuted. Qed.
+Proof. exact Proofs2.f6c_repaired. Qed.
 
 (* target operations keep the property table duplicate-free *)
 Theorem ord_step_wf :
@@ -77,17 +63,11 @@ Theorem forwarding_transparent :
   layered spec_check w n o t = ord_step w o t.
 Proof. exact Proofs2.forwarding_transparent. Qed.
 
-(* the same through goja's checks; only guard: F6c *)
+(* the same through goja's own checks, unguarded *)
 Theorem goja_forwarding_transparent :
-  forall w n o t, wf t = true -> f6c_free o t = true ->
+  forall w n o t, wf t = true ->
   layered goja_check w n o t = ord_step w o t.
 Proof. exact Proofs2.goja_forwarding_transparent. Qed.
-
-(* ... where goja's forwarding proxy still differs from the target *)
-Theorem goja_forwarding_refuted_f6c :
-  layered goja_check w0 1 (OGopd 1%N) undef_acc_target = (RDesc (Some (PData vundef false true true)), undef_acc_target) /\
-  ord_step w0 (OGopd 1%N) undef_acc_target = (RDesc (Some (PAcc None None true true)), undef_acc_target).
-Proof. exact Proofs2.goja_forwarding_refuted_f6c. Qed.
 
 (* (4) exactly the lying results are rejected *)
 Theorem lying_has :
@@ -181,10 +161,9 @@ Theorem lying_construct :
   forall r t, spec_check (CConstruct r) t = RTypeError <-> r = None.
 Proof. exact Proofs2.lying_construct. Qed.
 
-(* goja's checks reject exactly the same lies *)
+(* goja's checks reject exactly the same lies, every trap *)
 Theorem goja_rejects_lies :
   forall c t, wf t = true ->
-  match c with CGopd _ _ => False | _ => True end ->
   (goja_check c t = RTypeError <-> spec_check c t = RTypeError).
 Proof. exact Proofs2.goja_rejects_lies. Qed.
 
@@ -195,7 +174,7 @@ Proof. exact Proofs2.revoked_throws. Qed.
 
 (* non-vacuity *)
 Example ex_checks_guard :
-  wf ex_target = true /\ call_in_f6c (CGopd 1%N (GDesc (of_prop (PData 1%N false true false)))) = false /\
+  wf ex_target = true /\
   goja_check (CHas 1%N false) ex_target = RTypeError /\ spec_check (CHas 1%N true) ex_target = RBool true.
 Proof. exact Proofs2.ex_checks_guard. Qed.
 
@@ -211,8 +190,7 @@ Example ex_honest :
   = (RBool true, mkT false (Some 1%N) [(1%N, PData 1%N false true false); (2%N, PAcc None (Some 2%N) false false); (4%N, PData 5%N true true false)])
   /\ layered goja_check w0 3 (ODefine 4%N (mkD (Some 5%N) None None (Some false) None None)) ex_target
      = ord_step w0 (ODefine 4%N (mkD (Some 5%N) None None (Some false) None None)) ex_target
-  /\ f6c_free (ODefine 4%N (mkD (Some 5%N) None None (Some false) None None)) ex_target = true
-  /\ f6c_free (OGopd 2%N) ex_target = true /\ layered goja_check w0 2 (OGopd 2%N) ex_target = ord_step w0 (OGopd 2%N) ex_target.
+  /\ layered goja_check w0 2 (OGopd 2%N) ex_target = ord_step w0 (OGopd 2%N) ex_target.
 Proof. exact Proofs2.ex_honest. Qed.
 
 Example ex_lying_get :
@@ -222,18 +200,16 @@ Example ex_lying_get :
 Proof. exact Proofs2.ex_lying_get. Qed.
 
 Print Assumptions checks_eq_spec.
-Print Assumptions checks_eq_spec_other_traps.
 Print Assumptions compat_eq.
 Print Assumptions ownkeys_eq.
-Print Assumptions gopd_eq_partial.
+Print Assumptions gopd_eq.
 Print Assumptions define_eq.
 Print Assumptions f6_repaired.
-Print Assumptions gopd_result_refuted.
+Print Assumptions f6c_repaired.
 Print Assumptions ord_step_wf.
 Print Assumptions honest_accepted.
 Print Assumptions forwarding_transparent.
 Print Assumptions goja_forwarding_transparent.
-Print Assumptions goja_forwarding_refuted_f6c.
 Print Assumptions lying_has.
 Print Assumptions lying_delete.
 Print Assumptions lying_get.
